@@ -310,7 +310,10 @@ def enterCommand (cfg : Cfg) (st : AggState) (consumed : Bool) (cmd : Cmd) : Agg
   else if command = lit "cmake_parse_arguments" then pure (processCpa st)
   else if isDef ∧ st.awaiting.isSome then
     match st.awaiting with
-    | some ref => pure (claimDefinition cfg st ref (command = lit "macro") cmd)
+    | some ref =>
+      -- a definition with a doccomment of its own (`consumed`) has already pushed its entry on the definition stack
+      let st' := claimDefinition cfg st ref (command = lit "macro") cmd
+      pure (if consumed then { st' with defStack := st.defStack } else st')
     | none => pure st
   else if command = lit "endfunction" ∨ command = lit "endmacro" then
     match st.defStack with
